@@ -724,6 +724,31 @@ def run_C19(ctx):
     ctx.extra["sqrti_rand_results_validated"] = validated
 
 
+def apalache_xadd(ctx):
+    """Beyond TLC's bounds: the inductive invariant of XaddInd.tla (any number of adds, any addends,
+    64- and 32-bit words, 4 processes) discharged by Apalache: Init => IndInv and IndInv /\ Next => IndInv'."""
+    import shutil
+    wd = os.path.join(ctx.workdir, "apalache")
+    shutil.rmtree(wd, ignore_errors=True)
+    os.makedirs(wd)
+    spec = os.path.join(core.SPEC, "XaddInd.tla")
+    steps = [("base", ["--init=Init", "--length=0"]), ("step", ["--init=IndInit", "--length=1"])]
+    done = 0
+    for name, opts in steps:
+        p = core.sh(["apalache-mc", "check", "--cinit=ConstInit", "--inv=IndInv", f"--out-dir={wd}/out"] + opts + [spec],
+                    cwd=wd, timeout=900, check=False)
+        if "EXITCODE: OK" in p.stdout:
+            done += 1
+        elif "EXITCODE: ERROR (12)" in p.stdout:
+            ctx.violation(f"XaddInd: the inductive invariant fails ({name}): the atomic-add design loses an update or touches a neighbour",
+                          {"kind": "apalache", "step": name, "output": p.stdout[-2000:]})
+        else:
+            raise ToolError(f"apalache-mc ({name}) failed:\n" + p.stdout[-2000:])
+    ctx.extra["inductive_invariant"] = {"tool": "apalache-mc 0.58", "module": "XaddInd.tla", "obligations": len(steps), "discharged": done,
+                                        "scope": "NP = 4 processes, any K, any addends, M in {2^32, 2^64}"}
+    shutil.rmtree(wd, ignore_errors=True)
+
+
 def run_C18(ctx):
     import re
     # design: all interleavings
@@ -739,6 +764,7 @@ def run_C18(ctx):
         if not r.violation:
             raise ToolError(f"negative control failed: Xadd with Algo={algo} satisfies the invariants")
     ctx.extra["negative_controls"] = "Algo=split loses an update, Algo=wide touches the neighbour: both rejected by TLC, as they must"
+    apalache_xadd(ctx)
     # binding: concurrent stress on the real engines, finals validated by TLC
     out = os.path.join(ctx.workdir, "xadd.ndjson")
     nconf, count = (12, 200000) if ctx.quick else (200, 2000000)
